@@ -52,10 +52,21 @@ pub struct ReaderCfg {
 
 pub struct ReaderSlot {
   pub entity_id: [u8; 4],
-  pub datareader: DataReader<VSample>,
+  /// None after `detach_datareader` (async stream forms consume the DataReader)
+  pub datareader_opt: Option<DataReader<VSample>>,
   pub(crate) topic_cache: Arc<Mutex<TopicCache>>,
   pub(crate) notification_sender_keepalive: (),
   pub(crate) status_keepalive: Vec<Box<dyn std::any::Any>>,
+}
+
+impl ReaderSlot {
+  pub fn dr(&mut self) -> &mut DataReader<VSample> {
+    self.datareader_opt.as_mut().expect("datareader detached")
+  }
+
+  pub fn detach_datareader(&mut self) -> DataReader<VSample> {
+    self.datareader_opt.take().expect("datareader detached")
+  }
 }
 
 pub struct ReaderRig {
@@ -188,7 +199,7 @@ impl ReaderRig {
       let datareader = DataReader::from_simple_data_reader(sdr);
       slots.push(ReaderSlot {
         entity_id: [0, 0, i as u8 + 1, EntityKind::READER_WITH_KEY_USER_DEFINED.into()],
-        datareader,
+        datareader_opt: Some(datareader),
         topic_cache,
         notification_sender_keepalive: (),
         status_keepalive: vec![Box::new(discovery_command_receiver)],
